@@ -70,13 +70,13 @@ where
                 #(#executor_methods_declaration)*
             }
 
-            impl <#(#all_generics,)*> Executor
+            impl <#(#all_generics,)*> self::Executor
                 for #sylvia ::types::ExecutorBuilder<(#sylvia ::types::EmptyExecutorBuilderState, dyn #interface_name <#( #all_generics = #all_generics,)* > ) > #where_clause {
                 #(type #generics = #generics;)*
                 #(#methods_trait_impl)*
             }
 
-            impl <ContractT: #interface_name> Executor
+            impl <ContractT: #interface_name> self::Executor
                 for #sylvia ::types::ExecutorBuilder<( #sylvia ::types::EmptyExecutorBuilderState, ContractT )> {
                 #(type #generics = <ContractT as #interface_name > :: #generics;)*
                 #(#methods_trait_impl)*
